@@ -360,7 +360,7 @@ fn stress<R: Dest>(mode: i128, inmem: bool, seed: u64, full: bool) -> S {
         ]
     };
     let fallback: Vec<i128> = match shape { 0 => vec![SWITCH, AWAIT], 1 => vec![4], 2 => vec![LEN, 4], 3 => vec![LEN], _ => vec![LEN, SWITCH, AWAIT] };
-    let limit = Duration::from_secs(5);
+    let limit = Duration::from_secs(3);
     let pres = prx.recv_timeout(limit);
     let cres = crx.recv_timeout(limit);
     // what the property demands of this run (checked here so that the bulk of the runs need not be printed;
